@@ -466,7 +466,15 @@ Definition plist_sort (o : opts) (keys : list pkey) (store : list line)
   : result (list line * list logline * list fsop * bool) :=
   let unchanged := Ok (store, [], [], false) in
   let '(header, middle, footer) := split_plist (combine (seq 0 (length keys)) keys) in
-  if existsb (fun p => has_prefix at_sign (k_text (snd p)) || contains (k_text (snd p)) dollar) middle
+  if existsb (fun p => has_prefix at_sign (k_text (snd p)) || contains (k_text (snd p)) dollar
+                       (* a line inserted above/below this entry would move with it *)
+                       || match nth_error store (fst p) with
+                          | Some l => match l_fix l with
+                                      | Some f => negb (is_nil (f_above f ++ f_below f))
+                                      | None => false
+                                      end
+                          | None => false
+                          end) middle
      || match rev (firstn (length keys) store) with       (* plines[n-1].Line *)
         | lastl :: _ => match rev (l_raw lastl) with
                         | r :: _ => negb (has_suffix_nl r)
